@@ -74,6 +74,58 @@ ANYVALS = [None, [], {}, "", 0, -1, 1.5, True, "string", "object", "array", "int
            {"propertyName": 3}, {"propertyName": "k", "mapping": {"a": "#/components/schemas/Missing", "b": 3}}]
 
 
+def _obj(props, required=None, **kw):
+    d = {"type": "object", "properties": props}
+    if required:
+        d["required"] = required
+    d.update(kw)
+    return d
+
+
+def _ref(n):
+    return {"$ref": "#/definitions/" + n}
+
+
+# more seeds: every shape the compiler passes and jennies special-case, in legal documents
+HANDCRAFTED_JSONSCHEMA += [
+    # unions of struct references whose branches share constant fields of various types
+    {"definitions": {"Doc": _obj({"spec": {"oneOf": [_ref("V1"), _ref("V2")]}, "alt": {"anyOf": [_ref("V1"), _ref("V2"), _ref("V3")]}}),
+                     "V1": _obj({"version": {"type": "integer", "const": 1}, "kind": {"const": "one"}, "on": {"const": True}, "title": {"type": "string"}}, ["version"]),
+                     "V2": _obj({"version": {"type": "integer", "const": 2}, "kind": {"const": "two"}, "on": {"const": False}, "name": {"type": "string"}}, ["version"]),
+                     "V3": _obj({"version": {"type": "number", "const": 2.5}, "name": {"type": "string"}})},
+     "$ref": "#/definitions/Doc"},
+    # recursive and mutually recursive aliases that are not structs
+    {"definitions": {"Holder": _obj({"children": _ref("Tree"), "nested": _ref("Nested"), "ping": _ref("Ping")}),
+                     "Tree": {"type": "object", "additionalProperties": _ref("Tree")},
+                     "Nested": {"type": "array", "items": _ref("Nested")},
+                     "Ping": {"type": "array", "items": _ref("Pong")}, "Pong": {"type": "object", "additionalProperties": _ref("Ping")},
+                     "Str": {"type": "string"}, "StrList": {"type": "array", "items": _ref("Str")}, "StrMap": {"type": "object", "additionalProperties": _ref("StrList")}},
+     "$ref": "#/definitions/Holder"},
+    # anonymous structs / enums at depth, case-colliding and odd names, enum member edge cases
+    {"definitions": {"Panel": _obj({"options": _obj({"legend": _obj({"mode": {"enum": ["list", "table", ""]}, "sizes": {"type": "array", "items": {"enum": [1, 2, -3]}}})}),
+                                   "Options": {"type": "string"}, "field-name": {"type": "integer"}, "field_name": {"type": "integer"}, "1st": {"type": "boolean"},
+                                   "targets": {"type": "array", "items": _obj({"refId": {"type": "string"}, "hide": {"type": "boolean", "default": False}})},
+                                   "byName": {"type": "object", "additionalProperties": _obj({"v": {"type": "number"}})}}),
+                     "panel": {"type": "string", "enum": ["-a", "+b", "1", "a b", "A"]}, "Sign": {"type": "integer", "enum": [-1, 0, 1]}},
+     "$ref": "#/definitions/Panel"},
+    # defaults of every kind, constraints, formats, nullable forms
+    {"definitions": {"D": _obj({"s": {"type": "string", "default": "x", "minLength": 1, "maxLength": 5}, "i": {"type": "integer", "default": 3, "minimum": 0, "exclusiveMaximum": 10},
+                                "f": {"type": "number", "default": 1.5}, "b": {"type": "boolean", "default": True}, "l": {"type": "array", "items": {"type": "string"}, "default": ["a", "b"]},
+                                "o": {"allOf": [_ref("E")], "default": {"x": 1}}, "e": {"enum": ["a", "b"], "default": "b"}, "n": {"type": ["integer", "null"], "default": None},
+                                "t": {"type": "string", "format": "date-time"}, "u8": {"type": "integer", "minimum": 0, "maximum": 255}, "any": {}, "m": {"type": "object"}},
+                               ["s", "i"]),
+                     "E": _obj({"x": {"type": "integer", "default": 7}, "y": {"type": "string"}})},
+     "$ref": "#/definitions/D"},
+    # intersections and unions mixing scalars, arrays, maps, constants, null
+    {"definitions": {"Mix": _obj({"a": {"oneOf": [{"type": "string"}, {"type": "array", "items": {"type": "string"}}, {"type": "null"}]},
+                                  "b": {"oneOf": [{"const": "x"}, {"const": "y"}, {"type": "null"}]}, "c": {"anyOf": [{"type": "integer"}, {"type": "object", "additionalProperties": {"type": "integer"}}]},
+                                  "d": {"allOf": [_ref("Base"), _obj({"extra": {"type": "string"}})]}, "e": {"oneOf": [_ref("Base"), {"type": "string"}]},
+                                  "f": {"oneOf": [{"oneOf": [{"type": "string"}, {"type": "boolean"}]}, {"type": "integer"}]}}),
+                     "Base": _obj({"id": {"type": "string"}}, ["id"]), "Ext": {"allOf": [_ref("Base"), _obj({"more": {"type": "boolean"}})]}},
+     "$ref": "#/definitions/Mix"},
+]
+
+
 def js_mutate(rng, doc):
     """one structural mutation of a JSON document (mostly keeps it a valid schema document)"""
     doc = copy.deepcopy(doc)
